@@ -27,13 +27,13 @@ CONSTANTS Family,       \* field types offered to Init: subset of {"set","mutex"
           Classes,      \* action classes: "data", "attr", "aux", "schema", "restart"
           Sample        \* TRUE: draw action parameters at random (simulation)
 
-VARIABLES icfg, fcfg, bits, vals, rattr, cattr, ex, hasG, gcols, hasJ, nrestart, hist
+VARIABLES icfg, fcfg, bits, vals, rattr, cattr, ex, hasG, gcols, hasJ, remote, nrestart, hist
 
-vars == <<icfg, fcfg, bits, vals, rattr, cattr, ex, hasG, gcols, hasJ, nrestart, hist>>
+vars == <<icfg, fcfg, bits, vals, rattr, cattr, ex, hasG, gcols, hasJ, remote, nrestart, hist>>
 
 NoVal == -99999
-Rows  == 1..2
-Cols  == 0..2
+Rows  == 1..3       \* row 3 and column 3 are first used after a restart (fresh keys / ids:
+Cols  == 0..3       \* a translation store that lost its state would hand out an id twice)
 Times == 0..2        \* 0: no timestamp (standard view only)
 
 ---------------------------------------------------------------------------
@@ -93,21 +93,21 @@ EmptyVals == [c \in Cols |-> NoVal]
 NoAttr    == [x \in Rows |-> 0]
 NoCAttr   == [c \in Cols |-> 0]
 
-Proj(ic, fc, b, v, ra, ca, e, hg, gc, hj) ==
+Proj(ic, fc, b, v, ra, ca, e, hg, gc, hj, rem) ==
     [icfg |-> ic, fcfg |-> fc,
      rows  |-> [r \in Rows |-> {c \in Cols : <<r, c, 0>> \in b}],
      trows |-> [r \in Rows |-> [t \in 1..2 |-> {c \in Cols : <<r, c, t>> \in b}]],
      vals  |-> {<<c, v[c]>> : c \in NotNull(v)}, agg |-> Agg(v),
-     rattr |-> ra, cattr |-> ca, ex |-> e, hasG |-> hg, gcols |-> gc, hasJ |-> hj]
+     rattr |-> ra, cattr |-> ca, ex |-> e, hasG |-> hg, gcols |-> gc, hasJ |-> hj, remote |-> rem]
 
-Cur == Proj(icfg, fcfg, bits, vals, rattr, cattr, ex, hasG, gcols, hasJ)
+Cur == Proj(icfg, fcfg, bits, vals, rattr, cattr, ex, hasG, gcols, hasJ, remote)
 
 ---------------------------------------------------------------------------
 Init == \E type \in Family : \E fc \in FieldCfgs(type) : \E ic \in IndexCfgs :
           /\ icfg = ic /\ fcfg = fc
           /\ bits = {} /\ vals = EmptyVals /\ rattr = NoAttr /\ cattr = NoCAttr /\ ex = {}
-          /\ hasG = FALSE /\ gcols = {} /\ hasJ = FALSE /\ nrestart = 0
-          /\ hist = << [op |-> "init", st |-> Proj(ic, fc, {}, EmptyVals, NoAttr, NoCAttr, {}, FALSE, {}, FALSE)] >>
+          /\ hasG = FALSE /\ gcols = {} /\ hasJ = FALSE /\ remote = {} /\ nrestart = 0
+          /\ hist = << [op |-> "init", st |-> Proj(ic, fc, {}, EmptyVals, NoAttr, NoCAttr, {}, FALSE, {}, FALSE, {})] >>
 
 Pick(S) == IF Sample THEN {RandomElement(S)} ELSE S
 
@@ -115,6 +115,8 @@ Pick(S) == IF Sample THEN {RandomElement(S)} ELSE S
 Step(rec) == hist' = Append(hist, rec @@ [st |-> Cur'])
 
 IsBits == fcfg.type \in {"set", "mutex", "bool", "time"}
+Late(r, c) == /\ (r = 3 => nrestart > 0 /\ fcfg.type # "bool")
+              /\ (c = 3 => nrestart > 0)
 Single == fcfg.type \in {"mutex", "bool"}
 
 (* the bits a Set adds: the time point (time fields) and the standard view (unless disabled) *)
@@ -125,74 +127,86 @@ TimeOK(t) == IF fcfg.type = "time" THEN (t > 0 \/ ~fcfg.nostd) ELSE t = 0
 ApplySet(b, r, c, t) == (IF Single THEN {x \in b : x[2] # c} ELSE b) \cup Added(r, c, t)
 
 SetBit(r, c, t) ==
-    /\ IsBits /\ TimeOK(t)
+    /\ IsBits /\ TimeOK(t) /\ Late(r, c)
     /\ bits' = ApplySet(bits, r, c, t)
     /\ ex' = IF icfg.exist THEN ex \cup {c} ELSE ex
-    /\ UNCHANGED <<icfg, fcfg, vals, rattr, cattr, hasG, gcols, hasJ, nrestart>>
+    /\ UNCHANGED <<icfg, fcfg, vals, rattr, cattr, hasG, gcols, hasJ, remote, nrestart>>
     /\ Step([op |-> "SetBit", r |-> r, c |-> c, t |-> t])
 
 ClearBit(r, c) ==
-    /\ IsBits
+    /\ IsBits /\ Late(r, c)
     /\ bits' = {x \in bits : ~(x[1] = r /\ x[2] = c)}
-    /\ UNCHANGED <<icfg, fcfg, vals, rattr, cattr, ex, hasG, gcols, hasJ, nrestart>>
+    /\ UNCHANGED <<icfg, fcfg, vals, rattr, cattr, ex, hasG, gcols, hasJ, remote, nrestart>>
     /\ Step([op |-> "ClearBit", r |-> r, c |-> c])
 
 (* API.Import of two bits (applied in order) *)
 ImportBits(r1, c1, t1, r2, c2, t2) ==
-    /\ IsBits /\ TimeOK(t1) /\ TimeOK(t2)
+    /\ IsBits /\ TimeOK(t1) /\ TimeOK(t2) /\ Late(r1, c1) /\ Late(r2, c2)
     /\ bits' = ApplySet(ApplySet(bits, r1, c1, t1), r2, c2, t2)
     /\ ex' = IF icfg.exist THEN ex \cup {c1, c2} ELSE ex
-    /\ UNCHANGED <<icfg, fcfg, vals, rattr, cattr, hasG, gcols, hasJ, nrestart>>
+    /\ UNCHANGED <<icfg, fcfg, vals, rattr, cattr, hasG, gcols, hasJ, remote, nrestart>>
     /\ Step([op |-> "ImportBits", b |-> << <<r1, c1, t1>>, <<r2, c2, t2>> >>])
 
 SetVal(c, v) ==
-    /\ fcfg.type = "int"
+    /\ fcfg.type = "int" /\ Late(1, c)
     /\ vals' = [vals EXCEPT ![c] = v]
     /\ ex' = IF icfg.exist THEN ex \cup {c} ELSE ex
-    /\ UNCHANGED <<icfg, fcfg, bits, rattr, cattr, hasG, gcols, hasJ, nrestart>>
+    /\ UNCHANGED <<icfg, fcfg, bits, rattr, cattr, hasG, gcols, hasJ, remote, nrestart>>
     /\ Step([op |-> "SetVal", c |-> c, v |-> v])
 
 ImportVals(c1, v1, c2, v2) ==
-    /\ fcfg.type = "int"
+    /\ fcfg.type = "int" /\ Late(1, c1) /\ Late(1, c2)
     /\ vals' = [[vals EXCEPT ![c1] = v1] EXCEPT ![c2] = v2]
     /\ ex' = IF icfg.exist THEN ex \cup {c1, c2} ELSE ex
-    /\ UNCHANGED <<icfg, fcfg, bits, rattr, cattr, hasG, gcols, hasJ, nrestart>>
+    /\ UNCHANGED <<icfg, fcfg, bits, rattr, cattr, hasG, gcols, hasJ, remote, nrestart>>
     /\ Step([op |-> "ImportVals", b |-> << <<c1, v1>>, <<c2, v2>> >>])
 
 SetRowAttr(r, a) ==
     /\ IsBits /\ fcfg.type # "bool"      \* PQL has no way to name a bool row in SetRowAttrs
+    /\ Late(r, 0)
     /\ rattr' = [rattr EXCEPT ![r] = a]
-    /\ UNCHANGED <<icfg, fcfg, bits, vals, cattr, ex, hasG, gcols, hasJ, nrestart>>
+    /\ UNCHANGED <<icfg, fcfg, bits, vals, cattr, ex, hasG, gcols, hasJ, remote, nrestart>>
     /\ Step([op |-> "SetRowAttr", r |-> r, a |-> a])
 
 SetColAttr(c, a) ==
+    /\ Late(1, c)
     /\ cattr' = [cattr EXCEPT ![c] = a]
-    /\ UNCHANGED <<icfg, fcfg, bits, vals, rattr, ex, hasG, gcols, hasJ, nrestart>>
+    /\ UNCHANGED <<icfg, fcfg, bits, vals, rattr, ex, hasG, gcols, hasJ, remote, nrestart>>
     /\ Step([op |-> "SetColAttr", c |-> c, a |-> a])
 
 (* auxiliary field g (set, row 1) and index j *)
 CreateG == /\ ~hasG /\ hasG' = TRUE /\ gcols' = {}
-           /\ UNCHANGED <<icfg, fcfg, bits, vals, rattr, cattr, ex, hasJ, nrestart>>
+           /\ UNCHANGED <<icfg, fcfg, bits, vals, rattr, cattr, ex, hasJ, remote, nrestart>>
            /\ Step([op |-> "CreateG"])
 DeleteG == /\ hasG /\ hasG' = FALSE /\ gcols' = {}
-           /\ UNCHANGED <<icfg, fcfg, bits, vals, rattr, cattr, ex, hasJ, nrestart>>
+           /\ UNCHANGED <<icfg, fcfg, bits, vals, rattr, cattr, ex, hasJ, remote, nrestart>>
            /\ Step([op |-> "DeleteG"])
-SetG(c) == /\ hasG /\ gcols' = gcols \cup {c}
+SetG(c) == /\ hasG /\ Late(1, c) /\ gcols' = gcols \cup {c}
            /\ ex' = IF icfg.exist THEN ex \cup {c} ELSE ex
-           /\ UNCHANGED <<icfg, fcfg, bits, vals, rattr, cattr, hasG, hasJ, nrestart>>
+           /\ UNCHANGED <<icfg, fcfg, bits, vals, rattr, cattr, hasG, hasJ, remote, nrestart>>
            /\ Step([op |-> "SetG", c |-> c])
 CreateJ == /\ ~hasJ /\ hasJ' = TRUE
-           /\ UNCHANGED <<icfg, fcfg, bits, vals, rattr, cattr, ex, hasG, gcols, nrestart>>
+           /\ UNCHANGED <<icfg, fcfg, bits, vals, rattr, cattr, ex, hasG, gcols, remote, nrestart>>
            /\ Step([op |-> "CreateJ"])
 DeleteJ == /\ hasJ /\ hasJ' = FALSE
-           /\ UNCHANGED <<icfg, fcfg, bits, vals, rattr, cattr, ex, hasG, gcols, nrestart>>
+           /\ UNCHANGED <<icfg, fcfg, bits, vals, rattr, cattr, ex, hasG, gcols, remote, nrestart>>
            /\ Step([op |-> "DeleteJ"])
+
+(* shards of f known to hold data on other nodes (Field.AddRemoteAvailableShards /
+   API.DeleteAvailableShard): persisted in the field's .available.shards file *)
+RemoteShards == {8, 9}
+AddRemote(s) == /\ remote' = remote \cup {s}
+                /\ UNCHANGED <<icfg, fcfg, bits, vals, rattr, cattr, ex, hasG, gcols, hasJ, nrestart>>
+                /\ Step([op |-> "AddRemote", s |-> s])
+DelRemote(s) == /\ s \in remote /\ remote' = remote \ {s}
+                /\ UNCHANGED <<icfg, fcfg, bits, vals, rattr, cattr, ex, hasG, gcols, hasJ, nrestart>>
+                /\ Step([op |-> "DelRemote", s |-> s])
 
 (* DeleteField(f) followed by CreateField(f) with another configuration: nothing of the old
    field (data, row attributes, options) may come back, now or after a restart *)
 RecreateF(fc) ==
     /\ fc # fcfg
-    /\ fcfg' = fc /\ bits' = {} /\ vals' = EmptyVals /\ rattr' = NoAttr
+    /\ fcfg' = fc /\ bits' = {} /\ vals' = EmptyVals /\ rattr' = NoAttr /\ remote' = {}
     /\ UNCHANGED <<icfg, cattr, ex, hasG, gcols, hasJ, nrestart>>
     /\ Step([op |-> "RecreateF", cfg |-> fc])
 
@@ -200,7 +214,7 @@ RecreateF(fc) ==
 RecreateI(ic, fc) ==
     /\ icfg' = ic /\ fcfg' = fc
     /\ bits' = {} /\ vals' = EmptyVals /\ rattr' = NoAttr /\ cattr' = NoCAttr /\ ex' = {}
-    /\ hasG' = FALSE /\ gcols' = {}
+    /\ hasG' = FALSE /\ gcols' = {} /\ remote' = {}
     /\ UNCHANGED <<hasJ, nrestart>>
     /\ Step([op |-> "RecreateI", icfg |-> ic, cfg |-> fc])
 
@@ -208,7 +222,7 @@ Restart ==
     /\ nrestart < MaxRestarts
     /\ hist[Len(hist)].op # "Restart"
     /\ nrestart' = nrestart + 1
-    /\ UNCHANGED <<icfg, fcfg, bits, vals, rattr, cattr, ex, hasG, gcols, hasJ>>
+    /\ UNCHANGED <<icfg, fcfg, bits, vals, rattr, cattr, ex, hasG, gcols, hasJ, remote>>
     /\ Step([op |-> "Restart"])
 
 FVals == ValsOf(fcfg.bounds)
@@ -216,12 +230,13 @@ FVals == ValsOf(fcfg.bounds)
 Data ==
     \/ \E r \in Pick(Rows), c \in Pick(Cols), t \in Pick(Times) : SetBit(r, c, t)
     \/ \E r \in Pick(Rows), c \in Pick(Cols), t \in Pick(1..2) : Sample /\ SetBit(r, c, t)
+    \/ \E t \in Pick(Times) : Sample /\ (SetBit(3, 3, t) \/ SetBit(3, 0, t) \/ SetBit(1, 3, t))
     \/ \E r \in Pick(Rows), c \in Pick(Cols) : ClearBit(r, c)
     \/ \E r1 \in Pick(Rows), c1 \in Pick(Cols), t1 \in Pick(Times), r2 \in Pick(Rows), c2 \in Pick(Cols), t2 \in Pick(Times) :
           Sample /\ ImportBits(r1, c1, t1, r2, c2, t2)
-    \/ \E r1 \in Rows, c1 \in Cols, t1 \in Times, t2 \in Times :
+    \/ \E r1 \in 1..2, c1 \in 0..2, t1 \in Times, t2 \in Times :
           ~Sample /\ ImportBits(r1, c1, t1, 3 - r1, (c1 + 1) % 3, t2)
-    \/ \E r1 \in Rows, c1 \in Cols, t1 \in Times : ~Sample /\ ImportBits(r1, c1, t1, 3 - r1, c1, t1)
+    \/ \E r1 \in 1..2, c1 \in 0..2, t1 \in Times : ~Sample /\ ImportBits(r1, c1, t1, 3 - r1, c1, t1)
     \/ \E c \in Pick(Cols) : FVals # {} /\ \E v \in Pick(FVals) : SetVal(c, v)
     \/ \E c1 \in Pick(Cols), c2 \in Pick(Cols) : FVals # {} /\ \E v1 \in Pick(FVals), v2 \in Pick(FVals) :
           ImportVals(c1, v1, c2, v2)
@@ -233,6 +248,8 @@ Attrs ==
 Aux ==
     \/ CreateG \/ DeleteG \/ CreateJ \/ DeleteJ
     \/ \E c \in Pick(Cols) : SetG(c)
+    \/ \E s \in Pick(RemoteShards) : AddRemote(s)
+    \/ \E s \in Pick(RemoteShards) : DelRemote(s)
 
 SchemaOps ==
     \/ \E fc \in Pick(AltCfgs) : RecreateF(fc)
@@ -259,5 +276,5 @@ TypeOK == /\ \A c \in Cols : vals[c] = NoVal \/ vals[c] \in FVals
           /\ (fcfg.type = "int" => bits = {})
           /\ (Single => \A x \in bits, y \in bits : x[2] = y[2] => x[1] = y[1])
           /\ (~icfg.exist => ex = {})
-MCView == <<icfg, fcfg, bits, vals, rattr, cattr, ex, hasG, gcols, hasJ, nrestart, Len(hist)>>
+MCView == <<icfg, fcfg, bits, vals, rattr, cattr, ex, hasG, gcols, hasJ, remote, nrestart, Len(hist)>>
 =============================================================================
